@@ -30,7 +30,7 @@ RULE = (
 )
 ASSUMPTIONS = ["only default ignore patterns", "mtime order is used as the witness of write order (tmpfs, ns timestamps)"]
 BUDGET = {"quick": (220, 4), "thorough": (48000, 16)}
-REQUIRED = ["siblings", "chain>=2", "prefix_siblings", "sf", "-n", "child_after_parent"]
+REQUIRED = ["siblings", "chain>=2", "prefix_siblings", "sf", "-n", "child_after_parent", "ignored_child", "ignored_child_after_sf"]
 
 CFG = {
     "kinds": ["create"] * 7 + ["create_sf"] * 3 + ["put_new", "put_new", "overwrite", "mkdir", "mv", "rm"],
@@ -71,8 +71,69 @@ def _node(tree, path):
     return n
 
 
+@st.composite
+def _ignored_child(draw):
+    """a nested history whose root folder the parent's recorded patterns exclude must stay out of later parent runs,
+    also after a create -sf that leaves reference-only generations behind"""
+    skip = draw(st.sampled_from(["Skip", "cache", "tmp.d"]))
+    other = draw(st.sampled_from(["Other", "B", "keep"]))
+    order = draw(st.permutations([skip, other]))
+    return {
+        "kind": "ignored_child",
+        "skip": skip,
+        "other": other,
+        "order": list(order),
+        # (a trailing-slash pattern does not match the folder entry itself - left unasserted as in C12 - so it is not used here)
+        "pattern": draw(st.sampled_from([skip, skip, skip[:2] + "*", "?" + skip[1:]])),
+        "formats": draw(gen.formats(2)),
+        "middle": draw(st.lists(st.sampled_from(["sf_other", "sf_top", "folder", "put"]), min_size=1, max_size=3)),
+        "n": draw(st.booleans()),
+    }
+
+
 def strategy(tier):
-    return _scn()
+    return st.one_of(_scn(), _scn(), _scn(), _scn(), _ignored_child())
+
+
+def run_ignored_child(scn, ctx):
+    skip, other = scn["skip"], scn["other"]
+    with World("c08i") as w:
+        w.build("R", {"top.txt": "t", skip: {"s.txt": "in the ignored history", "d": {"x": "y"}}, other: {"o.txt": "o", "sub": {"p.txt": "p"}}})
+        for r in scn["order"]:
+            res = w.create("R/" + r, ["md5"])
+            require(res.exit_code == 0, "setup", res.brief(), res)
+        res = w.create("R", scn["formats"], extra=["-i", scn["pattern"]])
+        require(res.exc is None and res.exit_code == 0, "setup", res.brief(), res)
+        k = 0
+        for m in scn["middle"]:
+            k += 1
+            if m == "sf_other":
+                res = w.create("R", scn["formats"], sf=["R/%s/sub/p.txt" % other])
+            elif m == "sf_top":
+                res = w.create("R", scn["formats"], sf=["R/top.txt"])
+            elif m == "put":
+                w.put("R/%s/new%d.txt" % (other, k), "n%d" % k)
+                continue
+            else:
+                res = w.create("R", scn["formats"])
+            require(res.exc is None and res.exit_code == 0, "ignored-child-run", "%s: %s" % (m, res.brief()), res)
+        nskip = len(w.manifests("R/" + skip))
+        before = w.asc_files()
+        res = w.create("R", scn["formats"], flags=["-n"] if scn["n"] else [])
+        require(res.exc is None and res.exit_code == 0, "ignored-child-run", "final folder run: " + res.brief(), res)
+        require(len(w.manifests("R/" + skip)) == nskip, "ignored-child-sealed", "the nested history at %r is excluded by the recorded pattern %r but received a new generation" % (skip, scn["pattern"]), res)
+        doc = w.read_history("R")[-1][2]
+        bad = [r["path"] for r in doc["records"] if r["path"] == skip or r["path"].startswith(skip + "/")]
+        require(not bad, "ignored-child-sealed", "root generation records %r although pattern %r excludes them" % (bad, scn["pattern"]), res)
+        refs = [r["path"] for r in doc["references"]]
+        require(not any(p.startswith(skip + "/") for p in refs), "ignored-child-sealed", "root generation references the excluded history: %r" % refs, res)
+        require(any(p.startswith(other + "/") for p in refs), "references", "root generation does not reference %r: %r" % (other, refs), res)
+        require(scn["pattern"] in doc["patterns"], "ignored-child-sealed", "recorded pattern %r lost: %r" % (scn["pattern"], doc["patterns"]), res)
+        ctx.event("ignored_child")
+        if any(m.startswith("sf") for m in scn["middle"]):
+            ctx.event("ignored_child_after_sf")
+        ctx.mark_nontrivial()
+        return w.trace
 
 
 def observe(w, scn, step, before, res, ctx, recorded_before):
@@ -173,6 +234,8 @@ def observe(w, scn, step, before, res, ctx, recorded_before):
 
 
 def run_case(scn, ctx):
+    if scn.get("kind") == "ignored_child":
+        return run_ignored_child(scn, ctx)
     nontrivial = False
     with World("c08") as w:
         hist.setup_world(w, scn)
